@@ -31,6 +31,19 @@ CLAIMS = {
              "reference (disagreements skipped and counted); Reader errors assumed sticky; InputOffset/Buffered are not part of the verdict",
         engine="stream",
     ),
+    "C15": dict(
+        category="model_checking",
+        technique="TLA+ plain-tree specification (AstTree) with every Node operation as a function; implementation-shaped container model "
+                  "(AstNode: raw/lazy/loaded, tombstones, index) checked by TLC to refine it; GenAst operation sequences replayed on real "
+                  "nodes created seven ways; recorded long sequences (hook H4) validated by TLC with named deviations",
+        text="TLC proves refinement of the representation model for all bounded operation sequences and generates every sequence of the "
+             "bounded alphabet with the required observations; the harness replays them on real ast.Node values and validates seeded long "
+             "sequences on documents crossing the 16-slot/16-pair thresholds against the tree with a trace specification.",
+        design_ref="DESIGN.md section 4 C15, section 11",
+        note="finite document/operation alphabets in the exhaustive part; representation model is flat (scalar children) with scaled "
+             "thresholds; keys from a finite universe; one known finding (Len on partially loaded nodes) matched through hook H4",
+        engine="ast",
+    ),
 }
 
 NOT_YET = "not yet claimed: check under construction (build phase), see DESIGN.md section 8"
